@@ -33,6 +33,7 @@ func Gen(t *rapid.T) *Case {
 			h.Nest = rapid.IntRange(0, 5).Draw(t, "nest") == 0
 		}
 		h.Seq = rapid.IntRange(0, 3).Draw(t, "seq") == 0
+		h.Panics = rapid.IntRange(0, 5).Draw(t, "panics") == 0
 		h.Yield = rapid.IntRange(0, 2).Draw(t, "yield")
 		h.Replay = !h.Ctx && c.Store != "" && rapid.IntRange(0, 1).Draw(t, "replaySub") == 0
 		c.Handlers = append(c.Handlers, h)
